@@ -108,6 +108,7 @@ type vecHistOpts struct {
 	fine       bool // near-duplicate coordinates (style 3 of histVec)
 	radii      bool // clusters of very different radius (style 4)
 	forceStyle int  // > 0: that style of histVec; < 0: style 0 (small pool, exact ties)
+	nearMirror bool // with mirror: most on-plane queries are moved a few ulps off the plane (near ties, not ties)
 	mirror     bool // training sets, stored vectors and queries symmetric about the first axis: centroids come in
 	// mirror pairs, and a query with first coordinate 0 is exactly as far from one as from the other
 }
@@ -311,6 +312,9 @@ func runVecHistory(r *rand.Rand, p vecParams, o vecHistOpts, t *Trace) *Case {
 		if len(vscript) > 0 { // the follow-up of an id added while live: remove it, flush, look
 			x, vscript = vscript[0], vscript[1:]
 		}
+		if o.nearMirror && len(resident) < 6 && x >= 38 && x < 62 {
+			x = 0 // fill the index first: a near tie needs vectors on both sides
+		}
 		switch {
 		case x < 38: // add
 			id := idOf(nextID)
@@ -419,6 +423,7 @@ func runVecHistory(r *rand.Rand, p vecParams, o vecHistOpts, t *Trace) *Case {
 			} else if y == 9 {
 				nq = 0
 			}
+			nudged := false
 			qs := make([][]float32, nq)
 			for i := range qs {
 				dim := p.dim
@@ -432,6 +437,13 @@ func runVecHistory(r *rand.Rand, p vecParams, o vecHistOpts, t *Trace) *Case {
 				}
 				if o.mirror && r.Intn(2) == 0 {
 					qs[i][0] = 0 // on the mirror plane: equidistant from the two centroids of a pair
+					if o.nearMirror && r.Intn(3) != 0 {
+						// a few ulps off the plane: the two distances differ in their last bits only, and the
+						// strictly nearer one must still win the cut
+						qs[i][0] = float32(1+r.Intn(6)) * 1.2e-7 * float32(1-2*r.Intn(2))
+						nudged = true
+						t.Stat("vec.query_near_mirror_plane")
+					}
 				}
 				if p.metric == 2 && r.Intn(3) == 0 {
 					// cosine: a query far from unit length (the index must normalise it before ranking
@@ -545,6 +557,11 @@ func runVecHistory(r *rand.Rand, p vecParams, o vecHistOpts, t *Trace) *Case {
 				thr = float32(math.Abs(r.NormFloat64())) * 2
 			case 5:
 				thr = -1
+			}
+			if nudged && len(resident) > 1 && r.Intn(4) != 0 {
+				// the cut falls inside the candidate list, and nothing but the score decides who is in
+				k, thr, nodes, docids = 1+r.Intn(len(resident)-1), 0, nil, nil
+				t.Stat("vec.near_tie_cut")
 			}
 			aggz := r.Intn(3)
 			aggs := []comet.ScoreAggregationKind{comet.SumAggregation, comet.MaxAggregation, comet.MeanAggregation}
